@@ -129,7 +129,7 @@ UNITS = [
       object_bits=13, bound='record walker of Parameters::Parameters(c3d&): the first 2 records (outer loop cut after 2 iterations), group ids -4..4, file positions below 2 GiB, '
       'callees abstracted by stubs', props={'memsafe': ['C13', 'C16']},
       assumes=['bounded model checking, not a proof: callees are abstract stubs; termination of the walker is not examined'])] + [U(fn.replace('__', '_'), LK, 'h_' + fn, ['%s/contract_%s' % (fn, fn)], ['C11', 'C13', 'C18'],
-           replace=['vf_string_compare/contract_oracle_%s_vf_string_compare' % el], unwind=5, loops=True, timeout=1800, level='PB',
+           replace=['vf_string_compare/contract_oracle_%s_vf_string_compare' % el], unwind=5, loops=True, timeout=5400, level='PB',
            tier='thorough',
            bound='containers of at most 100000 elements',
            assumes=['string equality is an abstract oracle (ghost array); std::string::compare answers 0 exactly for equal '
@@ -140,7 +140,7 @@ UNITS = [
       ['C09', 'C10', 'C11', 'C13', 'C18'],
       replace=['vf_string_compare/contract_oracle_Parameter_vf_string_compare', 'vf_vec_Parameter_push_back/contract_rec_vf_vec_Parameter_push_back',
                'Parameter__assign/contract_rec_Parameter__assign'],
-      unwind=5, loops=True, timeout=2400, level='PB', tier='thorough', bound='groups of at most 100000 parameters',
+      unwind=5, loops=True, timeout=7200, level='PB', tier='thorough', bound='groups of at most 100000 parameters',
       assumes=['string equality oracle as for the look-ups; the store itself (vector growth / parameter assignment) is recorded, '
                'not executed'])] + [U('Points_point_' + c, PT, 'h_Points_point_' + c, ['Points__point__Point_sz/contract_Points__point__Point_sz'],
            ['C06', 'C08', 'C10', 'C13', 'C01', 'C18'], replace=_PT_REPL, unwind=5, timeout=1200, level='PB', mem_gb=30,
@@ -150,15 +150,12 @@ UNITS = [
     U('Points_point_alias', PT, 'h_Points_point_alias', ['Points__point__Point_sz/contract_alias_Points__point__Point_sz'],
       ['C13', 'C06', 'C10'], replace=_PT_REPL[:2] + ['Point__assign/contract_shallow_Point__assign', 'Point__ctor__Point/contract_shallow_Point__ctor__Point'], unwind=5, timeout=1200,
       level='PB', bound='at most 100000 points per frame'),
-    U('B_Parameter_write_char1d', RC, 'h_Parameter_write_char1d', ['Parameter__write/contract_Parameter__write'],
-      ['C03', 'C04', 'C12', 'C13', 'C14', 'C17', 'C10'],
-      replace=['vf_stream_write/contract_vf_stream_write', 'ezc3d__toUpper/contract_ezc3d__toUpper'], unwind=6, timeout=3600,
-      tier='thorough', sat='kissat', level='B', object_bits=12,
-      bound='one-dimensional character parameter of declared width 2..4 (padding loop unwound), name <= 127, description <= 255'),
+    # (the DFCC unit B_Parameter_write_char1d - 20+ min, over its time limit under load - was replaced by the bmc-mode unit
+    #  B_Parameter_write_char1d_bmc, which decides the same clauses in seconds; its contract remains in contracts/records.c)
     # (unit B_Parameters_read - the record walker of Parameters::Parameters(c3d&) - was removed: with loop contracts and
     #  even unwound to a single record it does not finish in 30 min / 40 GB; its contracts remain in contracts/readers.c)
     U('Group_write', RC, 'h_Group_write', ['Group__write/contract_Group__write'], ['C01', 'C03', 'C04', 'C13', 'C14', 'C17', 'C10', 'C18'],
-      replace=['vf_stream_write/contract_vf_stream_write', 'ezc3d__toUpper/contract_ezc3d__toUpper'], unwind=5, timeout=1800,
+      replace=['vf_stream_write/contract_vf_stream_write', 'ezc3d__toUpper/contract_ezc3d__toUpper'], unwind=5, timeout=5400,
       tier='thorough', sat='kissat',
       level='PB', bound='name <= 127 and description <= 255 characters (format capacity); group without parameters'),
     U('Group_write_limits', RC, 'h_L_Group_write', ['Group__write/contract_L_Group__write'], ['C17'],
@@ -247,7 +244,7 @@ UNITS = [
       props={'memsafe': ['C13', 'C16'], 'ub': ['C13']},
       assumes=['plain symbolic execution of the real recursive c3d::readParam (float form); readFloat = value stub (proved contract)']),
     U('B_Data_write', 'contracts/bounded_data_write.c', 'h_B_Data_write', [], ['C01', 'C03', 'C12', 'C14', 'C13'], mode='bmc',
-      unwind=5, unwindset={'vf_stream_write.0': 6}, timeout=1800, level='B', object_bits=12, tier='thorough',
+      unwind=5, unwindset={'vf_stream_write.0': 6}, timeout=5400, level='B', object_bits=12, tier='thorough',
       bound='at most 2 frames x 2 points x 2 sub-frames x 2 channels (uniform shape), start offset <= 8',
       props={'memsafe': ['C13'], 'ub': ['C13']},
       assumes=['plain symbolic execution of the real writer stack Data::write ... Point::write / Channel::write over the stream model']),
